@@ -113,7 +113,7 @@ def strip_render_hints(raw):
         return {k: strip_render_hints(v) for k, v in raw.items() if k not in ('txt', 'style')}
     return raw
 
-_PLAIN_STR = re.compile(r'^[a-zA-Z_][a-zA-Z0-9_]*$')
+_PLAIN_STR = re.compile(r'[a-zA-Z_][a-zA-Z0-9_]*\Z')
 _RESERVED = {'true', 'false', 'yes', 'no', 'on', 'off', 'null', 'y', 'n', 'True', 'False', 'Yes', 'No', 'On', 'Off',
              'Null', 'NULL', 'TRUE', 'FALSE', 'YES', 'NO', 'ON', 'OFF', 'Y', 'N', 'f'}
 
@@ -230,6 +230,9 @@ def render_block(n, md_style=0, qs=0, ind=0, lit=False):
         v = n['s']['l']
         if v and v == v.strip() and '\n' not in v and v.isprintable() and not v.startswith('#'):
             return (' ' + tt if tt else '') + (' |-' if len(v) % 2 else ' >-') + '\n' + pad + '  ' + v + '\n'
+        w = v[:-1]
+        if v.endswith('\n') and w and w == w.strip() and '\n' not in w and w.isprintable() and not w.startswith('#'):
+            return (' ' + tt if tt else '') + ' |' + '\n' + pad + '  ' + w + '\n'      # clip: the value keeps its final line break
     if 's' in n:
         body = render_flow({k: v for k, v in n.items() if k not in ('t', 'kw', 'txt')}, md_style, qs)
         return (' ' + tt if tt else '') + (' ' + body if body else '') + '\n'
@@ -397,7 +400,7 @@ def impl_merge(docs, style='flow', md_style=0, qs=0):
         b = Builder()
         for d in docs:
             text = render_doc(d['raw'], style, md_style, qs)
-            b.add_source(text, raw_yaml=True, filename=d.get('src'), safe=d.get('safe'))
+            b.add_source(text, raw_yaml=(None if d.get('auto') else True), filename=d.get('src'), safe=d.get('safe'))   # 'auto': the default of Config.build - file name or YAML text is guessed
         root = b.build()
         return {'ok': None if root is None else dump_node(root)}
     except RecursionError:
@@ -410,7 +413,7 @@ def impl_parse(docs, style='flow', md_style=0, qs=0):
         b = Builder()
         for d in docs:
             text = render_doc(d['raw'], style, md_style, qs)
-            b.add_source(text, raw_yaml=True, filename=d.get('src'), safe=d.get('safe'))
+            b.add_source(text, raw_yaml=(None if d.get('auto') else True), filename=d.get('src'), safe=d.get('safe'))   # 'auto': the default of Config.build - file name or YAML text is guessed
         return {'ok': [dump_node(s) for s in b.stages]}
     except Exception as e:  # noqa
         return classify_error(e)
